@@ -45,6 +45,7 @@ var basic = map[string]Type{
 }
 
 type pkg struct {
+	repo   string
 	dir    string
 	fset   *token.FileSet
 	files  map[string]*ast.File
@@ -55,7 +56,7 @@ type pkg struct {
 }
 
 func loadPkg(repo, dir string) (*pkg, error) {
-	p := &pkg{dir: dir, fset: token.NewFileSet(), files: map[string]*ast.File{}, named: map[string]Type{},
+	p := &pkg{repo: repo, dir: dir, fset: token.NewFileSet(), files: map[string]*ast.File{}, named: map[string]Type{},
 		consts: map[string]constant.Value{}, ctypes: map[string]Type{}, strct: map[string]map[string]string{}}
 	ents, err := os.ReadDir(filepath.Join(repo, dir))
 	if err != nil {
@@ -419,8 +420,72 @@ func (t *tr) selector(x *ast.SelectorExpr) param {
 		t.addExtra(pr)
 		return pr
 	}
+	// a package-level integer variable of an imported package of this module (Appendix F: extra parameter)
+	if _, local := t.vars[id.Name]; !local {
+		if ty, ok := t.p.pkgVarType(id.Name, x.Sel.Name); ok {
+			pr := param{id.Name + "_" + x.Sel.Name, ty}
+			t.addExtra(pr)
+			return pr
+		}
+	}
 	t.fail(x, "unsupported selector %s.%s", id.Name, x.Sel.Name)
 	return param{}
+}
+
+// pkgVarType resolves `pkgName.varName` to the declared integer type of a package-level `var` of another
+// package of the same module (found through the import declarations of this package's files).
+func (p *pkg) pkgVarType(pkgName, varName string) (Type, bool) {
+	const module = "github.com/Tnze/go-mc/"
+	for _, f := range p.files {
+		for _, im := range f.Imports {
+			path, err := strconv.Unquote(im.Path.Value)
+			if err != nil || !strings.HasPrefix(path, module) {
+				continue
+			}
+			name := path[strings.LastIndex(path, "/")+1:]
+			if im.Name != nil {
+				name = im.Name.Name
+			}
+			if name != pkgName {
+				continue
+			}
+			dir := strings.TrimPrefix(path, module)
+			ents, err := os.ReadDir(filepath.Join(p.repo, dir))
+			if err != nil {
+				return Type{}, false
+			}
+			for _, e := range ents {
+				n := e.Name()
+				if !strings.HasSuffix(n, ".go") || strings.HasSuffix(n, "_test.go") {
+					continue
+				}
+				af, err := parser.ParseFile(token.NewFileSet(), filepath.Join(p.repo, dir, n), nil, 0)
+				if err != nil {
+					continue
+				}
+				for _, d := range af.Decls {
+					gd, ok := d.(*ast.GenDecl)
+					if !ok || gd.Tok != token.VAR {
+						continue
+					}
+					for _, sp := range gd.Specs {
+						vs := sp.(*ast.ValueSpec)
+						for _, nm := range vs.Names {
+							if nm.Name != varName || vs.Type == nil {
+								continue
+							}
+							if tid, ok := vs.Type.(*ast.Ident); ok {
+								if ty, ok := basic[tid.Name]; ok {
+									return ty, true
+								}
+							}
+						}
+					}
+				}
+			}
+		}
+	}
+	return Type{}, false
 }
 
 func (t *tr) addExtra(p param) {
@@ -940,12 +1005,12 @@ func cloneEmits(m map[int]string) map[int]string {
 
 type Item struct {
 	Dir   string // package dir relative to repo
-	Kind  string // const | func | expr | cond | assign
+	Kind  string // const | func | expr | cond | assign | occurs
 	Recv  string // receiver type name ("" for plain functions)
 	Func  string
 	Local string // expr: name of the local whose initialiser is taken; assign: printed target, e.g. "id[6]"
 	Elem  string // assign: element type of the indexed array (e.g. "uint8")
-	Err   string // cond: substring of the error text returned in the if body
+	Err   string // cond: substring of the error text returned in the if body; occurs: the expression text (gofmt form)
 	Name  string // Lean name
 	Emit  bool   // func writes into a []byte parameter and returns the count
 }
@@ -1309,6 +1374,21 @@ func translate(p *pkg, it Item) (out string, err error) {
 		used = append(used, ps...)
 		e, _ := t.exprWithFields(cond, fd)
 		return header(p, fd, it, what+" / if … "+strconv.Quote(it.Err)) + sig(it.Name, dedup(used), *t.extra, "Bool") + "  " + e + "\n", nil
+	}
+	if it.Kind == "occurs" {
+		// a syntactic fact: the expression (in gofmt form) occurs in the function body; the definition is the
+		// number of occurrences. No occurrence is a translation error (the function was rewritten).
+		n := 0
+		ast.Inspect(fd.Body, func(nd ast.Node) bool {
+			if e, ok := nd.(ast.Expr); ok && exprText(p.fset, e) == it.Err {
+				n++
+			}
+			return true
+		})
+		if n == 0 {
+			return "", fmt.Errorf("expression %q does not occur in %s", it.Err, what)
+		}
+		return header(p, fd, it, what+" / occurrences of "+strconv.Quote(it.Err)) + fmt.Sprintf("def %s : Nat := %d\n", it.Name, n), nil
 	}
 	return "", fmt.Errorf("unknown kind %s", it.Kind)
 }
